@@ -27,10 +27,13 @@ def showNats (l : List Nat) : String := "[" ++ ",".intercalate (l.map toString) 
 def digest (st : State) : String :=
   let s := st.srv
   let conns := "[" ++ ",".intercalate (s.conns.map (fun c => s!"{c.id}@{c.owner}")) ++ "]"
-  let ftpc := match s.ftpc with | some f => showSvc f ++ (if s.ftpcFix.isSome then ":FIXING" else ":GOOD") | none => "-"
+  let ftpc := match s.ftpc with
+    | some f => showSvc f ++ (if s.ftpcFix.isSome then ":FIXING" else if s.ftpcComp then ":COMPROMISED" else ":GOOD") ++ ":" ++ showBool s.ftpConn
+    | none => "-"
+  let dels (l : List FHealth) := "/".intercalate (l.map (fun h => showF (some h)))
   let svc := if s.installed then s!"{showSvc s.op},{showH s.health}" else "absent,absent"
-  let srv := s!"srv:{showP s.node.st},{svc},{showF s.file},{showF s.downloads},{conns},ftpc={ftpc},port={showBool s.listening},dl={showBool s.dlFolder}"
-  let bk := s!"bk:{showP st.bk.node.st},{showSvc st.bk.ftps},{showF st.bk.stored}"
+  let srv := s!"srv:{showP s.node.st},{svc},{showF s.file},{showF s.downloads},{conns},ftpc={ftpc},port={showBool s.listening},dl={showBool s.dlFolder},del={dels s.fileDeleted};{dels s.dlDeleted}"
+  let bk := s!"bk:{showP st.bk.node.st},{showSvc st.bk.ftps},{showF st.bk.stored},orph={st.bk.orphans.length}"
   let cl := st.clients.map (fun c =>
     let dm := if c.dmInstalled then s!",dm{c.dmStage}" else ""
     if c.installed then s!"c:{showP c.node.st},{showApp c.app},{showNats c.conns},{showOpt toString c.native}{dm}"
@@ -50,6 +53,15 @@ def parseJunk : String → Option Junk
 def parseFH : String → Option FHealth
   | "GOOD" => some .good | "COMPROMISED" => some .compromised | "CORRUPT" => some .corrupt | _ => none
 
+def parseHealth : String → Option Health
+  | "UNUSED" => some .unused | "GOOD" => some .good | "FIXING" => some .fixing | "COMPROMISED" => some .compromised
+  | "OVERWHELMED" => some .overwhelmed | _ => none
+
+def parseFsAct : String → Option FsAct
+  | "fcorrupt" => some .fcorrupt | "frepair" => some .frepair | "frestore" => some .frestore | "fscan" => some .fscan
+  | "fdelete" => some .fdelete | "fundelete" => some .fundelete | "focorrupt" => some .focorrupt | "forepair" => some .forepair
+  | "fodelete" => some .fodelete | "fofdelete" => some .fofdelete | _ => none
+
 def parseOp : List String → Option Op
   | ["connect", i] => i.toNat?.map .connect
   | ["rq", i, cid, q] => do some (.rawQuery (← i.toNat?) (← optNat cid) (← parseSql q))
@@ -61,7 +73,11 @@ def parseOp : List String → Option Op
   | ["dl", "fodel"] => some (.dl .folderDelete)
   | ["dl", "plant", h] => (parseFH h).map (fun h => .dl (.plant h))
   | ["svcin"] => some (.svcInstall none)
-  | ["svcin", pw, bk] => do some (.svcInstall (some ((← optNat pw), (← parseBool bk))))
+  | ["svcin", pw, bk] => do some (.svcInstall (some { pw := (← optNat pw), bk := (← parseBool bk) }))
+  | ["svcin", pw, bk, fx, h] => do
+    some (.svcInstall (some { pw := (← optNat pw), bk := (← parseBool bk), fixDur := (← fx.toNat?), health := (← parseHealth h) }))
+  | ["fsr", "db", a] => (parseFsAct a).map (.fsr true)
+  | ["fsr", "dl", a] => (parseFsAct a).map (.fsr false)
   | ["co", k] => k.toNat?.map .co
   | ["adm", "ftpcin", c] => (parseBool c).map (fun c => .admin (.ftpcInstall c))
   | ["hq", h, q] => do some (.hQuery (← h.toNat?) (← parseSql q))
